@@ -165,6 +165,18 @@ void run_sweep(Stats& st) {
 		}
 		Tape t(tp); success_case(ws, f, t, st);
 	}
+	// audio data around one and two stream-copy chunks (128 KiB), followed by another track so that a short or long copy shifts it
+	for (unsigned dlen : {131071u, 131072u, 131073u, 262143u, 262144u, 262145u, 393216u}) for (unsigned after = 0; after < 2; ++after) {
+		if (!sw("copy_chunk", dlen, after)) continue;
+		std::vector<Wav> ws;
+		for (unsigned i = 0; i < 2; ++i) {
+			Wav w; w.base = i ? "zz_tail" : "Big"; w.ext = ".wav"; w.dir = "";
+			w.spec.fmt = f; w.spec.fmt18 = true; w.spec.data.resize(i ? 9 : dlen); for (size_t k = 0; k < w.spec.data.size(); ++k) w.spec.data[k] = uint8_t(k ^ (k >> 8) ^ (k >> 15) ^ i);
+			if (after) { refclm::Chunk c; memcpy(c.tag, "LIST", 5); c.body = {1, 2, 3, 4}; w.spec.afterData.push_back(c); }
+			w.bytes = refclm::build_wav(w.spec); ws.push_back(w);
+		}
+		Tape t(tp); success_case(ws, f, t, st);
+	}
 	if (sw("empty_set")) { Tape t(tp); success_case({}, f, t, st); }
 	// names of exactly 8 and 9 characters
 	for (unsigned len = 7; len <= 10; ++len) { if (!sw("name_len", len)) continue; Wav w; w.base = std::string(len, 'n'); w.ext = ".wav"; w.spec.fmt = f; w.spec.data = {1, 2, 3, 4}; w.bytes = refclm::build_wav(w.spec); Tape t(tp); if (len <= 8) success_case({w}, f, t, st); else refusal_case({w}, "name_longer_than_8", st); }
